@@ -218,7 +218,27 @@ func (sp SinePacer) Pace(elapsedTime time.Duration, elapsedHits uint64) (time.Du
 		}
 		nextHitIn = time.Duration(float64(nextHitIn) / (hitsAtGuess - float64(elapsedHits)))
 	}
-	return nextHitIn, false
+
+	// The iteration above doesn't converge when the rate changes a lot between
+	// two consecutive hits (few hits per Period, Amp close to Mean). Since
+	// Amp < Mean, hits(t) increases monotonically, so bisect for the instant at
+	// which the next hit is due instead of returning an arbitrary guess.
+	target := float64(elapsedHits + 1)
+	lo, hi := time.Duration(0), time.Duration(nsPerHit)+1
+	for sp.hits(elapsedTime+hi) < target {
+		if hi > (math.MaxInt64-elapsedTime)/2 {
+			return 0, true // Would overflow, stop the attack.
+		}
+		lo, hi = hi, 2*hi
+	}
+	for hi-lo > 1 {
+		if mid := lo + (hi-lo)/2; sp.hits(elapsedTime+mid) < target {
+			lo = mid
+		} else {
+			hi = mid
+		}
+	}
+	return hi, false
 }
 
 // Rate returns a SinePacer's instantaneous hit rate (i.e. requests per second)
